@@ -25,7 +25,7 @@ pub const ALPHABET: [&str; 15] = [
 ];
 
 const TABLES: [&str; 4] = ["none", "ascii-pairs", "utf8-lead-continuation", "end-of-word-suffix"];
-const PRETOKS: [&str; 7] = [
+const PRETOKS: [&str; 8] = [
     "none",
     "gpt2",
     "split-isolate(\\s+|[<>])",
@@ -34,6 +34,8 @@ const PRETOKS: [&str; 7] = [
     "sequence[gpt2,split-isolate(\\s+|[<>])]",
     // lossy: the delimiters are dropped. Only the offset laws are judged for it.
     "split-remove(\\s+)",
+    // a pattern that also matches the empty string (zero-length matches between the pieces)
+    "split-isolate-inverted(\\p{L}*)",
 ];
 const LOSSY_PRETOK: usize = 6;
 const ADDED_TOKEN: &str = "<|>";
@@ -139,6 +141,10 @@ fn make_pretok(p: usize) -> Option<Box<dyn PreTokenizer>> {
         ]))),
         6 => Some(Box::new(
             Split::new(SplitOptions { pattern: r"\s+", delimiter: SplitDelimiterBehavior::Remove, invert: false }).expect("valid pattern"),
+        )),
+        7 => Some(Box::new(
+            Split::new(SplitOptions { pattern: r"\p{L}*", delimiter: SplitDelimiterBehavior::Isolate, invert: true })
+                .expect("valid pattern"),
         )),
         _ => unreachable!(),
     }
@@ -388,7 +394,7 @@ pub fn run(ctx: Ctx) -> ! {
         replay(ctx, &p);
     }
     let max_cp = ctx.tier.pick(4, 5);
-    let pretoks: Vec<usize> = if ctx.tier.is_thorough() { (0..PRETOKS.len()).collect() } else { vec![0, 1, 2, LOSSY_PRETOK] };
+    let pretoks: Vec<usize> = if ctx.tier.is_thorough() { (0..PRETOKS.len()).collect() } else { vec![0, 1, 2, LOSSY_PRETOK, 7] };
     let mut cfgs = Vec::new();
     for pretok in pretoks {
         for table in 0..TABLES.len() {
@@ -504,7 +510,7 @@ pub fn run(ctx: Ctx) -> ! {
             "strings": nstrings,
             "vocab": ["implicit", "explicit"],
             "merge_tables": TABLES,
-            "pre_tokenizers": if ctx.tier.is_thorough() { PRETOKS.to_vec() } else { vec![PRETOKS[0], PRETOKS[1], PRETOKS[2], PRETOKS[LOSSY_PRETOK]] },
+            "pre_tokenizers": if ctx.tier.is_thorough() { PRETOKS.to_vec() } else { vec![PRETOKS[0], PRETOKS[1], PRETOKS[2], PRETOKS[LOSSY_PRETOK], PRETOKS[7]] },
             "added_token": [false, true],
             "tokenizer_configurations": cfgs.len(),
         },
